@@ -96,6 +96,39 @@ def compare(base, var, idb, idv, shift=None, box=None):
     return None
 
 
+def gen_dense(rng):
+    """denser two/three-species system with DIFFERENT cutoffs per colour pair registered in random order: 16-40 particles on a 1/8
+    lattice in a fully periodic box, linear pair forces (exact), 1-2 steps"""
+    nsp = rng.choice([2, 2, 3])
+    species = ['A', 'B', 'C'][:nsp]
+    rng.shuffle(species)
+    pairs = [(a, b) for i, a in enumerate(species) for b in species[i:]]
+    rng.shuffle(pairs)
+    cuts = [F(1, 2), F(3, 4), F(1), F(5, 4)]
+    modules = []
+    for (a, b) in pairs[:rng.randint(2, len(pairs))]:
+        e = ('smul', ('num', F(rng.choice([1, 2, -1]), rng.choice([1, 2, 4]))), ('rij',))
+        modules.append(('pforce', a, b, 'vel', rng.choice(cuts), F(-1), e, cd.ONE['V'], cd.ONE['V']))
+    # every cell width L / floor(L / rcmax) must be dyadic (else the cell-relative pair distances of the real code are rounded)
+    rcmax = max(F(m[4]) for m in modules)
+    def okL(L):
+        k = int(F(L) / rcmax)
+        w = F(L) / k
+        return k >= 2 and w.denominator & (w.denominator - 1) == 0
+    box = [F(rng.choice([L for L in (3, 4, 5, 6) if okL(L)])) for _ in range(3)]
+    n = rng.randint(16, 40)
+    used, particles = set(), []
+    while len(particles) < n:
+        r = tuple(F(rng.randint(0, int(box[c]) * 8 - 1), 8) for c in range(3))
+        if r in used: continue
+        used.add(r)
+        particles.append({'species': species[len(particles) % nsp] if len(particles) < nsp else rng.choice(species), 'frozen': False, 'r': list(r),
+                          'v': [F(rng.randint(-2, 2), 8) for _ in range(3)], 'tags': {}})
+    integrators = [('vv', s, F(1, 2), F(1)) for s in species]
+    return dict(box=box, periodic=[True] * 3, dt=F(1, 16), steps=rng.randint(1, 2), species=species, integrators=integrators, modules=modules,
+                particles=particles, flavour='dense', maxdeg=1, frozen_only=None)
+
+
 def main(argv):
     seed, ncases = int(argv[1]), int(argv[2])
     keep = argv[argv.index('--keep') + 1] if '--keep' in argv else None
@@ -108,6 +141,13 @@ def main(argv):
     def skip(k): summ['skipped'][k] = summ['skipped'].get(k, 0) + 1
     for case in range(ncases):
         gs = cd.gen_scenario(rng, None)
+        if case % 3 == 1:
+            gs = gen_dense(rng)
+        elif case % 3 != 0:
+            # two thirds of the cases: insist on a scenario the shift variant applies to (fully periodic, no absolute positions read)
+            for _ in range(12):
+                if all(gs['periodic']) and not scenario_reads_positions(gs): break
+                gs = cd.gen_scenario(rng, None)
         ms = cd.run_model(gs)
         if isinstance(ms, tuple): skip('model ' + str(ms[1])); continue
         d = os.path.join(work, 'case%d' % case)
@@ -116,6 +156,10 @@ def main(argv):
         if b[2] != 0: skip('reflector hit'); continue
         brs = b[1]
         h = min(cd.exact_horizon(gs, ms), len(brs))
+        if gs['flavour'] == 'dense':
+            # lattice data (multiples of 1/8), linear forces, <= 2 steps at dt = 1/16: every coordinate is a multiple of 2^-14 and every
+            # squared distance differs from a squared cutoff by 0 or >= 2^-28, so all double operations and cutoff tests are exact
+            h = len(brs)
         if h == 0: skip('no exact state'); continue
         summ['cases'] += 1
         summ['species_counts'][len(gs['species'])] = summ['species_counts'].get(len(gs['species']), 0) + 1
